@@ -35,7 +35,7 @@ def main():
     if "--tier" in sys.argv:
         tier = sys.argv[sys.argv.index("--tier") + 1]
         args = [a for a in args if a != tier]
-    ids = args or sorted(d for d in os.listdir(SEEDED) if os.path.isdir(os.path.join(SEEDED, d)))
+    ids = args or sorted(d for d in os.listdir(SEEDED) if os.path.isfile(os.path.join(SEEDED, d, "patch.diff")))
     st = sh(["git", "-C", "/repo", "status", "--porcelain"]).stdout.strip()
     if st:
         print("refusing: /repo has uncommitted changes:\n" + st)
